@@ -21,8 +21,26 @@ import time
 import ast
 
 VERIF = os.path.dirname(os.path.dirname(os.path.abspath(__file__)))
-COQ = os.path.join(VERIF, "coq")
+COQ_MAIN = os.path.join(VERIF, "coq")
+COQ = COQ_MAIN
 REPO = os.environ.get("VERIF_REPO", "/repo")
+if REPO != "/repo":
+    # A run against another tree (mutant / pre-fix worktree) regenerates coq/Gen from THAT tree.
+    # It must not touch /verif/coq (other runs against /repo use it at the same time), so it works
+    # on a private copy of the Coq development (sources and compiled files, timestamps kept, taken
+    # under the build lock) that is removed at exit.
+    import atexit
+    _alt = tempfile.mkdtemp(prefix="verif-altcoq-")
+    _lk = open(os.path.join(COQ_MAIN, ".build.lock"), "w")
+    fcntl.flock(_lk, fcntl.LOCK_EX)
+    try:
+        subprocess.run(["rsync", "-a", "--exclude", ".build.lock", COQ_MAIN + "/", os.path.join(_alt, "coq") + "/"],
+                       check=True)
+    finally:
+        fcntl.flock(_lk, fcntl.LOCK_UN)
+        _lk.close()
+    COQ = os.path.join(_alt, "coq")
+    atexit.register(shutil.rmtree, _alt, True)
 LIB = os.path.join(REPO, "lib")
 NPROC = int(os.environ.get("VERIF_JOBS", "16"))
 SHARD = 250
